@@ -342,7 +342,7 @@ impl Prop for C20 {
                 result?;
                 let _ = before;
                 // leak oracle: two further identical, quiet cycles must not grow the live heap
-                let mut marks = [0usize; 4];
+                let mut marks = [0isize; 4];
                 for mark in marks.iter_mut() {
                     let (code, inst) = c_start(text.as_bytes(), padding_frac.0, 0.0);
                     if code != 0 {
@@ -467,7 +467,7 @@ impl Prop for C20 {
                     }
                 }
                 let _ = (before, after);
-                let mut marks = [0usize; 4];
+                let mut marks = [0isize; 4];
                 for mark in marks.iter_mut() {
                     let (code2, inst2) = c_start(&bytes, padding_frac.0, blocking_frac.0);
                     if code2 == 0 {
